@@ -516,4 +516,733 @@ example : KfMem
   · exact ⟨2, 3, rfl, rfl, rfl, rfl⟩
   · exact ⟨2, 4, rfl, rfl, rfl, rfl⟩
 
+/-! ## `find_key` (lib/helpers.c) -/
+
+theorem strdup_spec (m : Mem) (b : Nat) (o : Int) (s : List UInt8) (h : m.cstr b o = .ok s) :
+    ∃ m', builtin "strdup" [.ptr b o] m = .ok (.ptr m.length 0, m') ∧ MemBytes m' m.length (s ++ [0]) ∧
+      m'.length = m.length + 1 ∧ ∀ b', b' < m.length → m'[b']? = m[b']? := by
+  obtain ⟨a1, a2, a3, a4⟩ := alloc_spec m (s.length + 1)
+  have hp : MemPart (m.alloc (s.length + 1)).1 m.length [] ((s ++ [0]).length + 0) := by simpa using a2
+  obtain ⟨m', hs, hm', hl, ho⟩ := hp.storeBytes (s ++ [0])
+  refine ⟨m', ?_, by simpa using hm'.toBytes, by rw [hl, a3], fun b' hb' => by rw [ho b' (by omega), a4 b' hb']⟩
+  simp only [List.length_nil, Int.natCast_zero] at hs
+  have e : (m.alloc (s.length + 1)) = ((m.alloc (s.length + 1)).1, m.length) := by rw [← a1]
+  simp only [builtin, h, bind, Except.bind]
+  rw [e]
+  simp [hs]
+
+theorem free_spec (m : Mem) (b : Nat) (blk : Block) (h1 : m[b]? = some blk) (h2 : blk.live = true) :
+    builtin "free" [.ptr b 0] m = .ok (.int 0, m.set b { blk with live := false }) := by
+  simp [builtin, Mem.block, h1, h2, bind, Except.bind]
+
+theorem cstr_congr {m m' : Mem} {b : Nat} (h : m'[b]? = m[b]?) (o : Int) : m'.cstr b o = m.cstr b o := by
+  simp [Mem.cstr, Mem.block, h]
+
+theorem loadSlot_congr {m m' : Mem} {b : Nat} (h : m'[b]? = m[b]?) (i : Int) : m'.loadSlot b i = m.loadSlot b i := by
+  simp [Mem.loadSlot, Mem.block, h]
+
+theorem cstr_lt {m : Mem} {b : Nat} {o : Int} {s : List UInt8} (h : m.cstr b o = .ok s) : b < m.length := by
+  cases hb : m[b]? with
+  | none => simp [Mem.cstr, Mem.block, hb, bind, Except.bind] at h
+  | some blk => exact (List.getElem?_eq_some_iff.1 hb).1
+
+/-- a memory that agrees with `m` on the blocks of `m` still holds the object -/
+theorem KfMem.mono {m m' : Mem} {bk be : Nat} {ents : Ents} (h : KfMem m bk be ents) (hm : ∀ b, b < m.length → m'[b]? = m[b]?) :
+    KfMem m' bk be ents := by
+  obtain ⟨blk, k1, k2, k3, k4⟩ := h.kf
+  obtain ⟨ablk, a1, a2, a3, a4⟩ := h.arr
+  have lk : bk < m.length := (List.getElem?_eq_some_iff.1 k1).1
+  have la : be < m.length := (List.getElem?_eq_some_iff.1 a1).1
+  refine ⟨⟨blk, by rw [hm bk lk]; exact k1, k2, k3, k4⟩, ⟨ablk, by rw [hm be la]; exact a1, a2, a3, ?_⟩⟩
+  intro i hi
+  obtain ⟨bg, bq, e1, e2, e3, e4⟩ := a4 i hi
+  exact ⟨bg, bq, e1, e2, by rw [cstr_congr (hm bg (cstr_lt e3))]; exact e3, by rw [cstr_congr (hm bq (cstr_lt e4))]; exact e4⟩
+
+def headCh : List UInt8 → Int
+  | [] => 0
+  | c :: _ => sch c
+
+/-- first byte of a C string, as `char` -/
+theorem cstr_head {m : Mem} {b : Nat} {s : List UInt8} (h : m.cstr b 0 = .ok s) :
+    m.load8 b 0 = .ok (headCh s) := by
+  simp only [Mem.cstr, bind, Except.bind] at h
+  cases hb : m.block b with
+  | error e => simp [hb] at h
+  | ok blk =>
+    simp only [hb, Int.lt_irrefl, if_false, Int.toNat_zero, Nat.zero_le, if_true, List.drop_zero] at h
+    cases hc : blk.cells with
+    | nil => simp [hc, cstrFrom] at h
+    | cons c rest =>
+      cases c with
+      | none => simp [hc, cstrFrom] at h
+      | some c =>
+        simp only [hc, cstrFrom] at h
+        by_cases hz : c = 0
+        · subst hz
+          simp at h; subst h
+          simp [Mem.load8, hb, hc, bind, Except.bind, headCh]
+          decide
+        · have hz' : (c == 0) = false := by simpa using hz
+          simp only [hz', Bool.false_eq_true, if_false] at h
+          cases hr : cstrFrom rest with
+          | error e => simp [hr, Except.map] at h
+          | ok r =>
+            simp only [hr, Except.map] at h
+            injection h with h; subst h
+            simp [Mem.load8, hb, hc, bind, Except.bind, sch, headCh]
+
+def fkGrp : Expr := .cond (.lor (.un .lnot (.load (.var 1) .ptr) .i32) (.un .lnot (.load (.deref (.load (.var 1) .ptr)) .i8) .i32))
+  (.call "strdup" (.cons (.strlit [95, 110, 111, 110, 101, 95]) .nil)) (.call "strdup" (.cons (.load (.var 1) .ptr) .nil))
+def fkNoKey : Expr := .lor (.un .lnot (.load (.var 2) .ptr) .i32) (.un .lnot (.load (.deref (.load (.var 2) .ptr)) .i8) .i32)
+def fkFree : Stmt := .expr (.call "free" (.cons (.load (.var 4) .ptr) .nil))
+def fkTest : Expr := .bin .lt (.load (.var 5) .u64) (.load (.slot (.load (.var 0) .ptr) 1) .u64) .i32
+def fkMatch : Expr := .land
+  (.un .lnot (.call "strcmp" (.cons (.load (.slot (.sidx (.load (.slot (.load (.var 0) .ptr) 0) .ptr) (.load (.var 5) .u64) 7) 0) .ptr) (.cons (.load (.var 4) .ptr) .nil))) .i32)
+  (.un .lnot (.call "strcmp" (.cons (.load (.slot (.sidx (.load (.slot (.load (.var 0) .ptr) 0) .ptr) (.load (.var 5) .u64) 7) 1) .ptr) (.cons (.load (.var 2) .ptr) .nil))) .i32)
+def fkHit : Stmt := .seq fkFree (.seq (.expr (.assign (.slot (.load (.var 3) .ptr) 0) (.load (.var 5) .u64) .u64)) (.ret (some (.cast .u32 (.lit 0 .i32)))))
+def fkBody : Stmt := .ite fkMatch fkHit .skip
+
+theorem find_key_shape : LeafFns.find_key.body =
+    .seq (.expr (.assign (.var 4) fkGrp .ptr))
+      (.seq (.ite (.bin .eq (.load (.var 4) .ptr) .null .i32) (.ret (some (.cast .u32 (.lit 2 .i32)))) .skip)
+        (.seq (.ite fkNoKey (.seq fkFree (.ret (some (.cast .u32 (.lit 1 .i32))))) .skip)
+          (.seq (.expr (.assign (.var 5) (.cast .u64 (.lit 0 .i32)) .u64))
+            (.seq (.for (some fkTest) (some (.incdec (.var 5) true true .u64)) fkBody)
+              (.seq fkFree (.ret (some (.cast .u32 (.lit 5 .i32))))))))) := rfl
+
+/-- a `const char *` argument: NULL or a C string -/
+inductive StrArg (m : Mem) : Val → Option (List UInt8) → Prop where
+  | null : StrArg m .null none
+  | str (b : Nat) (s : List UInt8) (h : m.cstr b 0 = .ok s) : StrArg m (.ptr b 0) (some s)
+
+/-- the group a lookup uses: NULL and "" mean the group of the group-less keys -/
+def grpOf (g : Option (List UInt8)) : List UInt8 :=
+  match g with
+  | none => Econf.NONE
+  | some g => if g.isEmpty then Econf.NONE else g
+
+theorem lit_cstr (m : Mem) (bs : List UInt8) (hz : (0 : UInt8) ∉ bs) :
+    (m ++ [({ cells := (bs ++ [0]).map some, writable := false } : Block)]).cstr m.length 0 = .ok bs := by
+  have := cstrFrom_str bs hz []
+  simp [Mem.cstr, Mem.block, bind, Except.bind, this]
+
+/-- the first statement: `grp` is a fresh copy of the group name in a block of its own -/
+theorem fk_grp (m : Mem) (loc : List Val) (gv : Val) (g : Option (List UInt8)) (hg : StrArg m gv g) (hl1 : loc[1]? = some gv) (hl4 : 4 < loc.length)
+    (fuel : Nat) :
+    ∃ m1 gb, exec fuel (.expr (.assign (.var 4) fkGrp .ptr)) { mem := m, loc := loc } = .normal { mem := m1, loc := loc.set 4 (.ptr gb 0) } ∧
+      m.length ≤ gb ∧ MemBytes m1 gb (grpOf g ++ [0]) ∧ (∀ b, b < m.length → m1[b]? = m[b]?) ∧
+      (∀ b blk, m.length ≤ b → b ≠ gb → m1[b]? = some blk → blk.writable = false) := by
+  have hnz : (0 : UInt8) ∉ [95, 110, 111, 110, 101, 95] := by decide
+  -- the copy of "_none_": the literal is a read-only block, the copy the block behind it
+  have hlit : ∃ m1, evalE (.call "strdup" (.cons (.strlit [95, 110, 111, 110, 101, 95]) .nil)) { mem := m, loc := loc } =
+        .ok (.ptr (m.length + 1) 0, { mem := m1, loc := loc }) ∧ MemBytes m1 (m.length + 1) (Econf.NONE ++ [0]) ∧
+        (∀ b, b < m.length → m1[b]? = m[b]?) ∧ (∀ b blk, m.length ≤ b → b ≠ m.length + 1 → m1[b]? = some blk → blk.writable = false) := by
+    have hc := lit_cstr m _ hnz
+    obtain ⟨m1, d1, d2, d3, d4⟩ := strdup_spec _ _ _ _ hc
+    simp only [List.length_append, List.length_singleton] at d1 d2 d3 d4
+    refine ⟨m1, ?_, d2, fun b hb => by rw [d4 b (by omega)]; simp [List.getElem?_append_left hb], ?_⟩
+    · simp only [evalE, evalArgs, bind, Except.bind, d1]
+    · intro b blk hb1 hb2 hb3
+      have hlt : b < m1.length := (List.getElem?_eq_some_iff.1 hb3).1
+      have : b = m.length := by omega
+      subst this
+      rw [d4 _ (by omega)] at hb3
+      simp at hb3
+      rw [← hb3]
+  cases hg with
+  | null =>
+    obtain ⟨m1, e1, e2, e3, e4⟩ := hlit
+    refine ⟨m1, m.length + 1, ?_, by omega, e2, e3, e4⟩
+    simp only [fkGrp]
+    generalize (Expr.call "strdup" (Args.cons (Expr.strlit [95, 110, 111, 110, 101, 95]) Args.nil)) = E at e1 ⊢
+    simp [exec, evalE, evalL, readPlace, hl1, unop, truth, boolVal, e1, convert, writePlace, hl4, bind, Except.bind, Except.map]
+  | str b s h =>
+    have hh := cstr_head h
+    cases s with
+    | nil =>
+      obtain ⟨m1, e1, e2, e3, e4⟩ := hlit
+      refine ⟨m1, m.length + 1, ?_, by omega, by simpa [grpOf] using e2, e3, e4⟩
+      simp only [fkGrp]
+      simp only [headCh] at hh
+      generalize (Expr.call "strdup" (Args.cons (Expr.strlit [95, 110, 111, 110, 101, 95]) Args.nil)) = E at e1 ⊢
+      simp [exec, evalE, evalL, readPlace, hl1, hh, unop, truth, boolVal, e1, convert, writePlace, hl4, bind, Except.bind, Except.map]
+    | cons c cs =>
+      have hcz : c ≠ 0 := fun hc0 => (cstr_nz h) (by simp [hc0])
+      have hs0 : sch c ≠ 0 := fun h0 => hcz ((sch_zero_iff c).1 h0)
+      obtain ⟨m1, d1, d2, d3, d4⟩ := strdup_spec _ _ _ _ h
+      refine ⟨m1, m.length, ?_, Nat.le_refl _, by simpa [grpOf] using d2, d4, ?_⟩
+      · simp only [headCh] at hh
+        simp [fkGrp, exec, evalE, evalArgs, evalL, readPlace, hl1, hh, hs0, unop, truth, boolVal, d1, convert, writePlace, hl4, bind, Except.bind, Except.map]
+      · intro b' blk hb1 hb2 hb3
+        have hlt : b' < m1.length := (List.getElem?_eq_some_iff.1 hb3).1
+        omega
+
+/-- the argument check of `find_key`: no key, or an empty one -/
+theorem fk_nokey (m : Mem) (loc : List Val) (kv : Val) (k : Option (List UInt8)) (hk : StrArg m kv k) (hl2 : loc[2]? = some kv) :
+    testOf (some fkNoKey) { mem := m, loc := loc } = .ok (decide (k = none ∨ k = some []), { mem := m, loc := loc }) := by
+  cases hk with
+  | null => simp [fkNoKey, testOf, evalE, evalL, readPlace, hl2, unop, truth, boolVal, bind, Except.bind, Except.map]
+  | str b s h =>
+    have hh := cstr_head h
+    cases s with
+    | nil =>
+      simp only [headCh] at hh
+      simp [fkNoKey, testOf, evalE, evalL, readPlace, hl2, hh, unop, truth, boolVal, bind, Except.bind, Except.map]
+    | cons c cs =>
+      have hcz : c ≠ 0 := fun hc0 => (cstr_nz h) (by simp [hc0])
+      have hs0 : sch c ≠ 0 := fun h0 => hcz ((sch_zero_iff c).1 h0)
+      simp only [headCh] at hh
+      simp [fkNoKey, testOf, evalE, evalL, readPlace, hl2, hh, hs0, unop, truth, boolVal, bind, Except.bind, Except.map]
+
+/-- the result code of `find_key` -/
+def fkCode (ents : Ents) (g k : Option (List UInt8)) : Int :=
+  match k with
+  | none => 1
+  | some [] => 1
+  | some (c :: cs) => if firstIdx ents (grpOf g) (c :: cs) < ents.length then 0 else 5
+
+/-- `free(grp)`: the copy is dead afterwards, everything else as before -/
+theorem fk_free (m1 : Mem) (loc : List Val) (gb : Nat) (cells : List UInt8) (hb : MemBytes m1 gb cells) (hl4 : loc[4]? = some (.ptr gb 0)) (fuel : Nat) :
+    ∃ blk, m1[gb]? = some blk ∧
+      exec fuel fkFree { mem := m1, loc := loc } = .normal { mem := m1.set gb { blk with live := false }, loc := loc } := by
+  obtain ⟨blk, b1, b2, _, _⟩ := hb.blk
+  refine ⟨blk, b1, ?_⟩
+  have := free_spec m1 gb blk b1 b2
+  simp [fkFree, exec, evalE, evalArgs, evalL, readPlace, hl4, this, bind, Except.bind]
+
+/-- `search_loop` with a hit that changes the state -/
+theorem search_loop' (fuel : Nat) (test inc : Expr) (body : Stmt) (P : Nat → St) (n f : Nat) (v : Val) (R : St)
+    (htest_lt : ∀ i, i < n → testOf (some test) (P i) = .ok (true, P i))
+    (htest_ge : testOf (some test) (P n) = .ok (false, P n))
+    (hstep : ∀ i, i < n → stepOf (some inc) (P i) = .ok (P (i + 1)))
+    (hmiss : ∀ i, i < f → exec fuel body (P i) = .normal (P i))
+    (hfn : f ≤ n) (hhit : f < n → exec fuel body (P f) = .ret v R) (hfuel : n < fuel) :
+    exec fuel (.for (some test) (some inc) body) (P 0) = if f < n then .ret v R else .normal (P n) := by
+  rw [exec_for]
+  have hround : ∀ i, i < f → testOf (some test) (P i) = .ok (true, P i) ∧
+      ∃ Q, (exec fuel body (P i) = .normal Q ∨ exec fuel body (P i) = .cont Q) ∧ stepOf (some inc) Q = .ok (P (i + 1)) :=
+    fun i hi => ⟨htest_lt i (by omega), P i, Or.inl (hmiss i hi), hstep i (by omega)⟩
+  by_cases hlt : f < n
+  · simp only [hlt, if_true]
+    exact loop_ret _ _ _ f P _ _ hround (htest_lt f hlt) (hhit hlt) fuel (by omega)
+  · simp only [hlt, if_false]
+    have : f = n := by omega
+    subst this
+    exact loop_count _ _ _ f P (P f) hround htest_ge fuel hfuel
+
+theorem StrArg.mono {m m' : Mem} {v : Val} {s : Option (List UInt8)} (h : StrArg m v s) (hm : ∀ b, b < m.length → m'[b]? = m[b]?) :
+    StrArg m' v s := by
+  cases h with
+  | null => exact .null
+  | str b s hc => exact .str b s (by rw [cstr_congr (hm b (cstr_lt hc))]; exact hc)
+
+theorem set_other {m : Mem} {b b' : Nat} {blk : Block} (hne : b' ≠ b) : (m.set b blk)[b']? = m[b']? := by
+  simp [List.getElem?_set, Ne.symm hne]
+
+theorem find_key_exec (m : Mem) (bk be bn : Nat) (ents : Ents) (gv kv : Val) (g k : Option (List UInt8))
+    (h : KfMem m bk be ents) (hg : StrArg m gv g) (hk : StrArg m kv k)
+    (hn : ∃ blk, m[bn]? = some blk ∧ blk.live = true ∧ blk.writable = true ∧ blk.slots.length = 1)
+    (hsmall : (ents.length : Int) + 1 < 18446744073709551616) (fuel : Nat) (hf : ents.length < fuel) :
+    ∃ m' loc', exec fuel LeafFns.find_key.body { mem := m, loc := [.ptr bk 0, gv, kv, .ptr bn 0, .undef, .undef] } =
+        .ret (.int (fkCode ents g k)) { mem := m', loc := loc' } ∧
+      (∀ b, b < m.length → b ≠ bn → m'[b]? = m[b]?) ∧
+      (fkCode ents g k = 0 → m'.loadSlot bn 0 = .ok (.int (firstIdx ents (grpOf g) (k.getD [])))) ∧
+      (fkCode ents g k ≠ 0 → m'[bn]? = m[bn]?) ∧
+      (∀ b blk, m.length ≤ b → m'[b]? = some blk → blk.live = true → blk.writable = false) := by
+  obtain ⟨m1, gb, hS1, hgb, hgm, hfr, hro⟩ := fk_grp m [.ptr bk 0, gv, kv, .ptr bn 0, .undef, .undef] gv g hg rfl (by simp) fuel
+  simp only [List.set_cons_succ, List.set_cons_zero] at hS1
+  rw [find_key_shape, exec_seq_normal hS1]
+  have hS2 : exec fuel (.ite (.bin .eq (.load (.var 4) .ptr) .null .i32) (.ret (some (.cast .u32 (.lit 2 .i32)))) .skip)
+      { mem := m1, loc := [.ptr bk 0, gv, kv, .ptr bn 0, .ptr gb 0, .undef] } =
+      .normal { mem := m1, loc := [.ptr bk 0, gv, kv, .ptr bn 0, .ptr gb 0, .undef] } := by
+    simp [exec, testOf, evalE, evalL, readPlace, binop, boolVal, truth, bind, Except.bind]
+  rw [exec_seq_normal hS2]
+  have hk1 := hk.mono hfr
+  have hnk := fk_nokey m1 [.ptr bk 0, gv, kv, .ptr bn 0, .ptr gb 0, .undef] kv k hk1 rfl
+  obtain ⟨nblk, n1, n2, n3, n4⟩ := hn
+  have hbn : bn < m.length := (List.getElem?_eq_some_iff.1 n1).1
+  have hbn_gb : bn ≠ gb := by omega
+  -- what `free(grp)` leaves, for every state of the local variables
+  have hfree : ∀ loc : List Val, loc[4]? = some (.ptr gb 0) → ∃ gblk, m1[gb]? = some gblk ∧
+      exec fuel fkFree { mem := m1, loc := loc } = .normal { mem := m1.set gb { gblk with live := false }, loc := loc } :=
+    fun loc hl => fk_free m1 loc gb _ hgm hl fuel
+  have hframe2 : ∀ gblk : Block, ∀ b, b < m.length → (m1.set gb { gblk with live := false })[b]? = m[b]? := by
+    intro gblk b hb
+    rw [set_other (by omega), hfr b hb]
+  have hleak2 : ∀ gblk : Block, ∀ b blk, m.length ≤ b → (m1.set gb { gblk with live := false })[b]? = some blk → blk.live = true → blk.writable = false := by
+    intro gblk b blk hb hsome hlive
+    by_cases hbg : b = gb
+    · subst hbg
+      have hlt : b < m1.length := by
+        have := (List.getElem?_eq_some_iff.1 hsome).1
+        simpa using this
+      simp [List.getElem?_set, hlt] at hsome
+      rw [← hsome] at hlive
+      simp at hlive
+    · rw [set_other hbg] at hsome
+      exact hro b blk hb hbg hsome
+  by_cases hno : k = none ∨ k = some []
+  · -- no key: `grp` is released, ECONF_ERROR
+    have hd : decide (k = none ∨ k = some []) = true := by simpa using hno
+    rw [hd] at hnk
+    obtain ⟨gblk, _, hfr1⟩ := hfree [.ptr bk 0, gv, kv, .ptr bn 0, .ptr gb 0, .undef] rfl
+    have w1 : wrapTo .u32 1 = 1 := by decide
+    have hret : exec fuel (.ite fkNoKey (.seq fkFree (.ret (some (.cast .u32 (.lit 1 .i32))))) .skip)
+        { mem := m1, loc := [.ptr bk 0, gv, kv, .ptr bn 0, .ptr gb 0, .undef] } =
+        .ret (.int 1) { mem := m1.set gb { gblk with live := false }, loc := [.ptr bk 0, gv, kv, .ptr bn 0, .ptr gb 0, .undef] } := by
+      rw [exec_ite_true hnk, exec_seq_normal hfr1]
+      simp [exec, evalE, convert, w1, bind, Except.bind]
+    have hcode : fkCode ents g k = 1 := by
+      rcases hno with rfl | rfl <;> rfl
+    refine ⟨_, _, by rw [exec_seq_ret hret, hcode], fun b hb _ => hframe2 gblk b hb, by rw [hcode]; intro h0; exact absurd h0 (by decide),
+      fun _ => hframe2 gblk bn hbn, hleak2 gblk⟩
+  · -- a key: the search
+    have hd : decide (k = none ∨ k = some []) = false := by simpa using hno
+    rw [hd] at hnk
+    have hS3 : exec fuel (.ite fkNoKey (.seq fkFree (.ret (some (.cast .u32 (.lit 1 .i32))))) .skip)
+        { mem := m1, loc := [.ptr bk 0, gv, kv, .ptr bn 0, .ptr gb 0, .undef] } =
+        .normal { mem := m1, loc := [.ptr bk 0, gv, kv, .ptr bn 0, .ptr gb 0, .undef] } := by
+      rw [exec_ite_false hnk]; simp [exec]
+    rw [exec_seq_normal hS3]
+    -- the key argument is a non-empty string
+    obtain ⟨ak, ks, rfl, rfl, hkc, hkne⟩ : ∃ ak ks, kv = .ptr ak 0 ∧ k = some ks ∧ m1.cstr ak 0 = .ok ks ∧ ks ≠ [] := by
+      cases hk1 with
+      | null => exact absurd (Or.inl rfl) hno
+      | str b s hc => exact ⟨b, s, rfl, rfl, hc, fun he => hno (Or.inr (by rw [he]))⟩
+    have h1 : KfMem m1 bk be ents := h.mono hfr
+    have hlen := h1.len
+    have harr := h1.arrp
+    have hnone : (0 : UInt8) ∉ Econf.NONE := by decide
+    have hgz : (0 : UInt8) ∉ grpOf g := by
+      cases hg with
+      | null => exact hnone
+      | str b s hc =>
+        unfold grpOf
+        simp only
+        split
+        · exact hnone
+        · exact cstr_nz hc
+    have hgc : m1.cstr gb 0 = .ok (grpOf g) := hgm.cstr0 (rest := []) hgz
+    have hkz := cstr_nz hkc
+    have w0 : wrapTo .u64 0 = 0 := wrapTo_u64_small 0 (by decide) (by decide)
+    let P : Nat → St := fun i => { mem := m1, loc := [.ptr bk 0, gv, .ptr ak 0, .ptr bn 0, .ptr gb 0, .int (i : Int)] }
+    have hinit : exec fuel (.expr (.assign (.var 5) (.cast .u64 (.lit 0 .i32)) .u64))
+        { mem := m1, loc := [.ptr bk 0, gv, .ptr ak 0, .ptr bn 0, .ptr gb 0, .undef] } = .normal (P 0) := by
+      simp [exec, evalE, evalL, writePlace, convert, w0, bind, Except.bind, P]
+    rw [exec_seq_normal hinit]
+    have htest_lt : ∀ i, i < ents.length → testOf (some fkTest) (P i) = .ok (true, P i) := by
+      intro i hi
+      have : (i : Int) < (ents.length : Int) := by omega
+      simp [fkTest, testOf, evalE, evalL, readPlace, hlen, binop, cmpInt, boolVal, truth, this, bind, Except.bind, P]
+    have htest_ge : testOf (some fkTest) (P ents.length) = .ok (false, P ents.length) := by
+      simp [fkTest, testOf, evalE, evalL, readPlace, hlen, binop, cmpInt, boolVal, truth, bind, Except.bind, P]
+    have hstep : ∀ i, i < ents.length → stepOf (some (.incdec (.var 5) true true .u64)) (P i) = .ok (P (i + 1)) := by
+      intro i hi
+      have : wrapTo .u64 ((i : Int) + 1) = (i : Int) + 1 := wrapTo_u64_small _ (by omega) (by omega)
+      simp [stepOf, evalE, evalL, readPlace, writePlace, binop, cmpInt, arith, Ty.signed, convert, this, bind, Except.bind, Except.map, P]
+    have hcond : ∀ i (hi : i < ents.length), testOf (some fkMatch) (P i) = .ok (decide ((ents[i]).1 = grpOf g ∧ (ents[i]).2 = ks), P i) := by
+      intro i hi
+      obtain ⟨bg, l1, c1⟩ := h1.group i hi
+      obtain ⟨bq, l2, c2⟩ := h1.key i hi
+      have hsx := h1.sidx i (Nat.le_of_lt hi)
+      have z1 := cstr_nz c1
+      have z2 := cstr_nz c2
+      by_cases e1 : (ents[i]).1 = grpOf g
+      · by_cases e2 : (ents[i]).2 = ks
+        · have q1 : cmpBytes (grpOf g) (grpOf g) = 0 := (cmpBytes_eq_zero _ _ hgz hgz).2 rfl
+          have q2 : cmpBytes ks ks = 0 := (cmpBytes_eq_zero _ _ hkz hkz).2 rfl
+          simp [fkMatch, testOf, evalE, evalL, evalArgs, readPlace, harr, hsx, l1, l2, c1, c2, hgc, hkc, builtin, unop, truth, boolVal, q1, q2, e1, e2,
+            bind, Except.bind, Except.map, P]
+        · have q1 : cmpBytes (grpOf g) (grpOf g) = 0 := (cmpBytes_eq_zero _ _ hgz hgz).2 rfl
+          have q2 : cmpBytes (ents[i]).2 ks ≠ 0 := fun hq => e2 ((cmpBytes_eq_zero _ _ z2 hkz).1 hq)
+          simp [fkMatch, testOf, evalE, evalL, evalArgs, readPlace, harr, hsx, l1, l2, c1, c2, hgc, hkc, builtin, unop, truth, boolVal, q1, q2, e1, e2,
+            bind, Except.bind, Except.map, P]
+      · have q1 : cmpBytes (ents[i]).1 (grpOf g) ≠ 0 := fun hq => e1 ((cmpBytes_eq_zero _ _ z1 hgz).1 hq)
+        simp [fkMatch, testOf, evalE, evalL, evalArgs, readPlace, harr, hsx, l1, l2, c1, c2, hgc, hkc, builtin, unop, truth, boolVal, q1, e1,
+          bind, Except.bind, Except.map, P]
+    let f := firstIdx ents (grpOf g) ks
+    have hfle : f ≤ ents.length := firstIdx_le _ _ _
+    have hmiss : ∀ i, i < f → exec fuel fkBody (P i) = .normal (P i) := by
+      intro i hi
+      have hi' : i < ents.length := by omega
+      have hc := hcond i hi'
+      have : decide ((ents[i]).1 = grpOf g ∧ (ents[i]).2 = ks) = false := by simpa using firstIdx_before ents _ _ i hi
+      rw [this] at hc
+      unfold fkBody; rw [exec_ite_false hc]; simp [exec]
+    obtain ⟨gblk, hgblk, _⟩ := hfree (P 0).loc rfl
+    have hfreeP : ∀ i, exec fuel fkFree (P i) = .normal { mem := m1.set gb { gblk with live := false }, loc := (P i).loc } := by
+      intro i
+      obtain ⟨gblk', hg', hx⟩ := hfree (P i).loc rfl
+      have : gblk' = gblk := by rw [hgblk] at hg'; injection hg' with hg'; exact hg'.symm
+      rw [← this]; exact hx
+    -- the cell `*num`
+    have hbn2 : (m1.set gb { gblk with live := false })[bn]? = some nblk := by rw [hframe2 gblk bn hbn]; exact n1
+    have w0' : wrapTo .u32 0 = 0 := by decide
+    have w5 : wrapTo .u32 5 = 5 := by decide
+    let m3 : Mem := (m1.set gb { gblk with live := false }).set bn { nblk with slots := nblk.slots.set 0 (.int (f : Int)) }
+    have hhit : f < ents.length → exec fuel fkBody (P f) = .ret (.int 0) { mem := m3, loc := (P f).loc } := by
+      intro hlt
+      have hc := hcond f hlt
+      have : decide ((ents[f]).1 = grpOf g ∧ (ents[f]).2 = ks) = true := by simpa using firstIdx_at ents _ _ hlt
+      rw [this] at hc
+      have wf : wrapTo .u64 (f : Int) = f := wrapTo_u64_small _ (by omega) (by omega)
+      have hst : Mem.storeSlot (m1.set gb { gblk with live := false }) bn 0 (.int (f : Int)) = Except.ok m3 := by
+        simp [Mem.storeSlot, Mem.block, hbn2, n2, n3, n4, bind, Except.bind, m3]
+      unfold fkBody fkHit
+      rw [exec_ite_true hc, exec_seq_normal (hfreeP f)]
+      simp [exec, evalE, evalL, readPlace, writePlace, convert, wf, hst, w0', bind, Except.bind, Except.map, P]
+    have hl := search_loop' fuel fkTest _ fkBody P ents.length f (.int 0) _ htest_lt htest_ge hstep hmiss hfle hhit hf
+    by_cases hlt : f < ents.length
+    · -- found
+      simp only [hlt, if_true] at hl
+      have hcode : fkCode ents g (some ks) = 0 := by
+        cases ks with
+        | nil => exact absurd rfl hkne
+        | cons c cs => simp [fkCode, f] at hlt ⊢; exact hlt
+      refine ⟨m3, _, by rw [exec_seq_ret hl, hcode], ?_, ?_, fun hne => absurd hcode hne, ?_⟩
+      · intro b hb hbne
+        simp only [m3]
+        rw [set_other hbne, hframe2 gblk b hb]
+      · intro _
+        have hl3 : bn < (m1.set gb { gblk with live := false }).length := (List.getElem?_eq_some_iff.1 hbn2).1
+        have : 0 < nblk.slots.length := by omega
+        have hl3' : bn < m1.length := by simpa using hl3
+        simp [Mem.loadSlot, Mem.block, m3, List.getElem?_set, hl3', n2, n4, this, bind, Except.bind, f]
+      · intro b blk hb hsome hlive
+        have hbne : b ≠ bn := by omega
+        simp only [m3] at hsome
+        rw [set_other hbne] at hsome
+        exact hleak2 gblk b blk hb hsome hlive
+    · -- not found
+      simp only [hlt, if_false] at hl
+      have hcode : fkCode ents g (some ks) = 5 := by
+        cases ks with
+        | nil => exact absurd rfl hkne
+        | cons c cs => simp [fkCode, f] at hlt ⊢; omega
+      rw [exec_seq_normal hl, exec_seq_normal (hfreeP ents.length)]
+      refine ⟨m1.set gb { gblk with live := false }, (P ents.length).loc, by simp [exec, evalE, convert, w5, hcode, bind, Except.bind], fun b hb _ => hframe2 gblk b hb,
+        fun h0 => absurd (hcode ▸ h0) (by decide), fun _ => hframe2 gblk bn hbn, hleak2 gblk⟩
+
+/-! ### the list-level model of `find_key` -/
+
+theorem grpOf_eq (g : Option (List UInt8)) : grpOf g = Econf.rawGroup g := by
+  cases g <;> rfl
+
+theorem firstIdx_found (es : List Econf.Entry) (g k : List UInt8) :
+    decide (firstIdx (entsOf es) g k < es.length) = (Econf.findIdx es g k).isSome := by
+  induction es with
+  | nil => simp [firstIdx, entsOf, Econf.findIdx]
+  | cons e es ih =>
+    by_cases hm : (e.group == g && e.key == k) = true
+    · have hp : (!((e.group, e.key).1 == g && (e.group, e.key).2 == k)) = false := by simp only [hm, Bool.not_true]
+      simp only [firstIdx, entsOf, List.map_cons, List.takeWhile_cons, hp, Econf.findIdx, List.findIdx?_cons, hm]
+      simp
+    · have hm' : (e.group == g && e.key == k) = false := by simpa using hm
+      have hp : (!((e.group, e.key).1 == g && (e.group, e.key).2 == k)) = true := by simp only [hm', Bool.not_false]
+      have : firstIdx (entsOf (e :: es)) g k = firstIdx (entsOf es) g k + 1 := by
+        simp only [firstIdx, entsOf, List.map_cons, List.takeWhile_cons, hp, if_true, List.length_cons]
+      rw [this]
+      have ih' := ih
+      simp only [Econf.findIdx, List.findIdx?_cons, hm', Bool.false_eq_true, if_false, List.length_cons] at ih' ⊢
+      cases hf : List.findIdx? (fun e => e.group == g && e.key == k) es with
+      | none => simp [hf] at ih' ⊢; omega
+      | some i => simp [hf] at ih' ⊢; omega
+
+/-- the result code of the C function is the model's: ECONF_ERROR for a missing or empty key, ECONF_NOKEY when no entry of
+    the group has the key, success otherwise -/
+theorem fkCode_model (es : List Econf.Entry) (g k : Option (List UInt8)) :
+    fkCode (entsOf es) g k =
+      match Econf.findKey { entries := es } (Econf.rawGroup g) k with
+      | .ok _ => 0
+      | .error e => (e.code : Int) := by
+  have hl : (entsOf es).length = es.length := by simp [entsOf]
+  cases k with
+  | none => simp [fkCode, Econf.findKey, Econf.Err.code]
+  | some ks =>
+    cases ks with
+    | nil => simp [fkCode, Econf.findKey, Econf.Err.code]
+    | cons c cs =>
+      have hf := firstIdx_found es (Econf.rawGroup g) (c :: cs)
+      simp only [fkCode, grpOf_eq, hl, Econf.findKey, List.isEmpty_cons, Bool.false_eq_true, if_false]
+      cases hi : Econf.findIdx es (Econf.rawGroup g) (c :: cs) with
+      | none =>
+        have : ¬ firstIdx (entsOf es) (Econf.rawGroup g) (c :: cs) < es.length := by simpa [hi] using hf
+        simp [this, Econf.Err.code]
+      | some i =>
+        have : firstIdx (entsOf es) (Econf.rawGroup g) (c :: cs) < es.length := by simpa [hi] using hf
+        simp [this]
+
+/-- `find_key` (lib/helpers.c) on the translated term, for every object, every group argument (NULL, empty, a name) and every
+    key argument: no fault; the copy of the group name is released on every path (nothing the function allocated is alive
+    afterwards but the read-only literal); memory the caller can see is untouched except `*num`; the code returned is the
+    model's `findKey`, and on success `*num` is the index the model finds. -/
+theorem C_find_key (m : Mem) (bk be bn : Nat) (es : List Econf.Entry) (gv kv : Val) (g k : Option (List UInt8))
+    (h : KfMem m bk be (entsOf es)) (hg : StrArg m gv g) (hk : StrArg m kv k)
+    (hn : ∃ blk, m[bn]? = some blk ∧ blk.live = true ∧ blk.writable = true ∧ blk.slots.length = 1)
+    (hsmall : (es.length : Int) + 1 < 18446744073709551616) (fuel : Nat) (hf : es.length < fuel) :
+    ∃ m' loc' code, exec fuel LeafFns.find_key.body { mem := m, loc := [.ptr bk 0, gv, kv, .ptr bn 0, .undef, .undef] } =
+        .ret (.int code) { mem := m', loc := loc' } ∧
+      (match Econf.findKey { entries := es } (Econf.rawGroup g) k with
+       | .ok i => code = 0 ∧ m'.loadSlot bn 0 = .ok (.int (i : Int))
+       | .error e => code = (e.code : Int) ∧ m'[bn]? = m[bn]?) ∧
+      (∀ b, b < m.length → b ≠ bn → m'[b]? = m[b]?) ∧
+      (∀ b blk, m.length ≤ b → m'[b]? = some blk → blk.live = true → blk.writable = false) := by
+  have hl : (entsOf es).length = es.length := by simp [entsOf]
+  obtain ⟨m', loc', he, hfr, h0, hne, hlk⟩ := find_key_exec m bk be bn (entsOf es) gv kv g k h hg hk hn (by rw [hl]; exact hsmall) fuel (by rw [hl]; exact hf)
+  refine ⟨m', loc', _, he, ?_, hfr, hlk⟩
+  have hc := fkCode_model es g k
+  cases hfk : Econf.findKey { entries := es } (Econf.rawGroup g) k with
+  | ok i =>
+    rw [hfk] at hc
+    refine ⟨hc, ?_⟩
+    have := h0 hc
+    rw [this]
+    -- the index: the model's search
+    cases k with
+    | none => simp [Econf.findKey] at hfk
+    | some ks =>
+      simp only [Econf.findKey] at hfk
+      split at hfk
+      · simp at hfk
+      · cases hi : Econf.findIdx es (Econf.rawGroup g) ks with
+        | none => simp [hi] at hfk
+        | some j =>
+          simp only [hi] at hfk
+          injection hfk with hfk
+          subst hfk
+          simp [grpOf_eq, firstIdx_model, hi]
+  | error e =>
+    rw [hfk] at hc
+    refine ⟨hc, hne ?_⟩
+    rw [hc]
+    have he : e = .error ∨ e = .nokey := by
+      cases k with
+      | none => simp [Econf.findKey] at hfk; exact Or.inl hfk.symm
+      | some ks =>
+        simp only [Econf.findKey] at hfk
+        split at hfk
+        · injection hfk with hfk; exact Or.inl hfk.symm
+        · split at hfk
+          · simp at hfk
+          · injection hfk with hfk; exact Or.inr hfk.symm
+    rcases he with rfl | rfl <;> simp [Econf.Err.code]
+
+/-! ## `getFromGroupList` (lib/helpers.c) -/
+
+/-- block `bk` holds an `econf_file` whose `groups` member points at block `bl`, an array of `group_count` pointers to the
+    C strings `gl[i].2` (in the blocks `gl[i].1`) followed by a NULL pointer -/
+structure GlMem (m : Mem) (bk bl : Nat) (gl : List (Nat × List UInt8)) : Prop where
+  kf : ∃ blk, m[bk]? = some blk ∧ blk.live = true ∧ blk.slots[13]? = some (.ptr bl 0) ∧ blk.slots[14]? = some (.int gl.length)
+  arr : ∃ blk, m[bl]? = some blk ∧ blk.live = true ∧ blk.slots.length = gl.length + 1 ∧
+    ∀ i (h : i < gl.length), blk.slots[i]? = some (.ptr (gl[i]).1 0) ∧ m.cstr (gl[i]).1 0 = .ok (gl[i]).2
+
+theorem GlMem.count {m bk bl gl} (h : GlMem m bk bl gl) : m.loadSlot bk 14 = .ok (.int gl.length) := by
+  obtain ⟨blk, h1, h2, _, h4⟩ := h.kf
+  simp [Mem.loadSlot, Mem.block, h1, h2, h4, bind, Except.bind]
+
+theorem GlMem.arrp {m bk bl gl} (h : GlMem m bk bl gl) : m.loadSlot bk 13 = .ok (.ptr bl 0) := by
+  obtain ⟨blk, h1, h2, h3, _⟩ := h.kf
+  simp [Mem.loadSlot, Mem.block, h1, h2, h3, bind, Except.bind]
+
+theorem GlMem.sidx {m bk bl gl} (h : GlMem m bk bl gl) (i : Nat) (hi : i ≤ gl.length) :
+    slotAdd m bl 0 (i : Int) = .ok (.ptr bl (i : Int)) := by
+  obtain ⟨blk, h1, h2, h3, _⟩ := h.arr
+  have : (0 : Int) ≤ (i : Int) ∧ (i : Int) ≤ (blk.slots.length : Int) := by rw [h3]; omega
+  simp [slotAdd, Mem.block, h1, h2, this, bind, Except.bind]
+
+theorem GlMem.elem {m bk bl gl} (h : GlMem m bk bl gl) (i : Nat) (hi : i < gl.length) :
+    m.loadSlot bl (i : Int) = .ok (.ptr (gl[i]).1 0) ∧ m.cstr (gl[i]).1 0 = .ok (gl[i]).2 := by
+  obtain ⟨blk, h1, h2, h3, h4⟩ := h.arr
+  obtain ⟨e1, e2⟩ := h4 i hi
+  refine ⟨?_, e2⟩
+  have hn : ¬ ((i : Int) < 0) := by omega
+  simp [Mem.loadSlot, Mem.block, h1, h2, hn, e1, bind, Except.bind]
+
+/-- index of the first name equal to `nm`; the number of names when there is none -/
+def firstN (gl : List (Nat × List UInt8)) (nm : List UInt8) : Nat := (gl.takeWhile (fun e => !(e.2 == nm))).length
+
+theorem firstN_le (gl) (nm) : firstN gl nm ≤ gl.length := (List.takeWhile_sublist _).length_le
+
+theorem firstN_before (gl : List (Nat × List UInt8)) (nm) : ∀ i (h : i < firstN gl nm), (gl[i]'(Nat.lt_of_lt_of_le h (firstN_le gl nm))).2 ≠ nm := by
+  induction gl with
+  | nil => intro i h; simp [firstN] at h
+  | cons e es ih =>
+    intro i h
+    unfold firstN at h
+    by_cases hm : (e.2 == nm) = true
+    · simp [List.takeWhile, hm] at h
+    · have hm' : (e.2 == nm) = false := by simpa using hm
+      cases i with
+      | zero => simpa using hm
+      | succ j =>
+        have hj : j < firstN es nm := by
+          simp only [List.takeWhile, hm', Bool.not_false, List.length_cons] at h
+          unfold firstN; omega
+        simpa using ih j hj
+
+theorem firstN_at (gl : List (Nat × List UInt8)) (nm) (h : firstN gl nm < gl.length) : (gl[firstN gl nm]).2 = nm := by
+  induction gl with
+  | nil => simp at h
+  | cons e es ih =>
+    by_cases hm : (e.2 == nm) = true
+    · have : firstN (e :: es) nm = 0 := by simp [firstN, List.takeWhile, hm]
+      simp only [this, List.getElem_cons_zero]
+      simpa using hm
+    · have hm' : (e.2 == nm) = false := by simpa using hm
+      have e1 : firstN (e :: es) nm = firstN es nm + 1 := by simp [firstN, List.takeWhile, hm']
+      have h' : firstN es nm < es.length := by rw [e1] at h; simpa using h
+      simp only [e1, List.getElem_cons_succ]
+      exact ih h'
+
+def glMatch : Expr := .un .lnot (.call "strcmp" (.cons (.load (.slot (.sidx (.load (.slot (.load (.var 0) .ptr) 13) .ptr) (.load (.var 3) .i32) 1) 0) .ptr) (.cons (.load (.var 1) .ptr) .nil))) .i32
+def glTake : Stmt := .seq (.expr (.assign (.var 2) (.load (.slot (.sidx (.load (.slot (.load (.var 0) .ptr) 13) .ptr) (.load (.var 3) .i32) 1) 0) .ptr) .ptr))
+  (.expr (.assign (.var 3) (.load (.slot (.load (.var 0) .ptr) 14) .i32) .i32))
+def glBody : Stmt := .ite glMatch glTake .skip
+def glTest : Expr := .bin .lt (.load (.var 3) .i32) (.load (.slot (.load (.var 0) .ptr) 14) .i32) .i32
+
+theorem getFromGroupList_shape : LeafFns.getFromGroupList.body =
+    .seq (.expr (.assign (.var 2) .null .ptr))
+      (.seq (.expr (.assign (.var 3) (.lit 0 .i32) .i32))
+        (.seq (.for (some glTest) (some (.incdec (.var 3) true true .i32)) glBody)
+          (.ret (some (.load (.var 2) .ptr))))) := rfl
+
+theorem inRange_i32 (n : Int) (h1 : -2147483648 ≤ n) (h2 : n < 2147483648) : inRange .i32 n = true := by
+  simp [inRange, Ty.signed, Ty.bits]
+  exact ⟨decide_eq_true h1, decide_eq_true h2⟩
+
+theorem stepOf_some (e : Expr) (st st' : St) (v : Val) (h : evalE e st = .ok (v, st')) : stepOf (some e) st = .ok st' := by
+  simp only [stepOf, h, Except.map]
+
+theorem arith_i32 (n : Int) (h1 : -2147483648 ≤ n) (h2 : n < 2147483648) : arith .i32 n = .ok (.int n) := by
+  have hr := inRange_i32 n h1 h2
+  simp [arith, Ty.signed, hr]
+
+/-- `i++` on the `int` variable 3 -/
+theorem incdec_i32_var3 (m : Mem) (a b c : Val) (n : Int) (h1 : -2147483648 ≤ n + 1) (h2 : n + 1 < 2147483648) :
+    evalE (.incdec (.var 3) true true .i32) { mem := m, loc := [a, b, c, .int n] } = .ok (.int n, { mem := m, loc := [a, b, c, .int (n + 1)] }) := by
+  have hb : binop m .add .i32 (.int n) (.int 1) = .ok (.int (n + 1)) := by
+    have ha := arith_i32 (n + 1) h1 h2
+    simp [binop, cmpInt, ha]
+  have hc : convert .i32 (.int (n + 1)) = .ok (.int (n + 1)) := by
+    have hw : wrapTo .i32 (n + 1) = n + 1 := wrapTo_i32 _ h1 h2
+    simp [convert, hw]
+  simp only [evalE, evalL, readPlace, bind, Except.bind]
+  simp only [List.getElem?_cons_succ, List.getElem?_cons_zero]
+  simp only [if_true, hb]
+  simp only [show (Ty.i32 == Ty.ptr) = false from rfl]
+  simp only [Bool.false_eq_true, if_false, hc, writePlace]
+  try simp
+
+theorem getFromGroupList_exec (m : Mem) (bk bl an : Nat) (gl : List (Nat × List UInt8)) (nm : List UInt8) (h : GlMem m bk bl gl)
+    (hn : m.cstr an 0 = .ok nm) (hsmall : (gl.length : Int) + 1 < 2147483648) (fuel : Nat) (hf : gl.length + 1 < fuel) :
+    ∃ loc', exec fuel LeafFns.getFromGroupList.body { mem := m, loc := [.ptr bk 0, .ptr an 0, .undef, .undef] } =
+      .ret (if hlt : firstN gl nm < gl.length then .ptr (gl[firstN gl nm]).1 0 else .null) { mem := m, loc := loc' } := by
+  have hcnt := h.count
+  have harr := h.arrp
+  have hnz := cstr_nz hn
+  let A : Nat → St := fun i => { mem := m, loc := [.ptr bk 0, .ptr an 0, .null, .int (i : Int)] }
+  have hinit1 : exec fuel (.expr (.assign (.var 2) .null .ptr)) { mem := m, loc := [.ptr bk 0, .ptr an 0, .undef, .undef] } =
+      .normal { mem := m, loc := [.ptr bk 0, .ptr an 0, .null, .undef] } := by
+    simp [exec, evalE, evalL, writePlace, convert, bind, Except.bind]
+  have w0 : wrapTo .i32 0 = 0 := wrapTo_i32 0 (by omega) (by omega)
+  have hinit2 : exec fuel (.expr (.assign (.var 3) (.lit 0 .i32) .i32)) { mem := m, loc := [.ptr bk 0, .ptr an 0, .null, .undef] } = .normal (A 0) := by
+    simp [exec, evalE, evalL, writePlace, convert, w0, bind, Except.bind, A]
+  rw [getFromGroupList_shape, exec_seq_normal hinit1, exec_seq_normal hinit2]
+  have htestA : ∀ i, testOf (some glTest) (A i) = .ok (decide (i < gl.length), A i) := by
+    intro i
+    by_cases hi : i < gl.length
+    · have : (i : Int) < (gl.length : Int) := by omega
+      simp [glTest, testOf, evalE, evalL, readPlace, hcnt, binop, cmpInt, boolVal, truth, this, hi, bind, Except.bind, A]
+    · have : ¬ (i : Int) < (gl.length : Int) := by omega
+      simp [glTest, testOf, evalE, evalL, readPlace, hcnt, binop, cmpInt, boolVal, truth, this, hi, bind, Except.bind, A]
+  have hstepA : ∀ i, i < gl.length → stepOf (some (.incdec (.var 3) true true .i32)) (A i) = .ok (A (i + 1)) := by
+    intro i hi
+    have := incdec_i32_var3 m (.ptr bk 0) (.ptr an 0) .null (i : Int) (by omega) (by omega)
+    exact stepOf_some _ _ _ _ (by simpa [A] using this)
+  have hcond : ∀ i (hi : i < gl.length), testOf (some glMatch) (A i) = .ok (if (gl[i]).2 = nm then true else false, A i) := by
+    intro i hi
+    obtain ⟨l1, c1⟩ := h.elem i hi
+    have hsx := h.sidx i (Nat.le_of_lt hi)
+    have z1 := cstr_nz c1
+    by_cases e1 : (gl[i]).2 = nm
+    · have q1 : cmpBytes nm nm = 0 := (cmpBytes_eq_zero _ _ hnz hnz).2 rfl
+      simp [glMatch, testOf, evalE, evalL, evalArgs, readPlace, harr, hsx, l1, c1, hn, builtin, unop, truth, boolVal, q1, e1,
+        bind, Except.bind, Except.map, A]
+    · have q1 : cmpBytes (gl[i]).2 nm ≠ 0 := fun hq => e1 ((cmpBytes_eq_zero _ _ z1 hnz).1 hq)
+      simp [glMatch, testOf, evalE, evalL, evalArgs, readPlace, harr, hsx, l1, c1, hn, builtin, unop, truth, boolVal, q1, e1,
+        bind, Except.bind, Except.map, A]
+  have hmiss : ∀ i, i < firstN gl nm → exec fuel glBody (A i) = .normal (A i) := by
+    intro i hi
+    have hi' : i < gl.length := Nat.lt_of_lt_of_le hi (firstN_le gl nm)
+    have hc := hcond i hi'
+    simp only [firstN_before gl nm i hi, if_false] at hc
+    unfold glBody; rw [exec_ite_false hc]; simp [exec]
+  have hfle := firstN_le gl nm
+  by_cases hlt : firstN gl nm < gl.length
+  · -- found in round f: `ret` takes the pointer, the counter jumps to the end
+    simp only [hlt, dite_true]
+    have hat := firstN_at gl nm hlt
+    obtain ⟨f, hfdef⟩ : ∃ f, f = firstN gl nm := ⟨_, rfl⟩
+    simp only [← hfdef] at hlt hat hmiss hfle ⊢
+    let Q : St := { mem := m, loc := [.ptr bk 0, .ptr an 0, .ptr (gl[f]).1 0, .int (gl.length : Int)] }
+    let E : St := { mem := m, loc := [.ptr bk 0, .ptr an 0, .ptr (gl[f]).1 0, .int ((gl.length : Int) + 1)] }
+    have hhit : exec fuel glBody (A f) = .normal Q := by
+      have hc := hcond f hlt
+      simp only [hat, if_true] at hc
+      obtain ⟨l1, c1⟩ := h.elem f hlt
+      have hsx := h.sidx f (Nat.le_of_lt hlt)
+      have hw : wrapTo .i32 (gl.length : Int) = gl.length := wrapTo_i32 _ (by omega) (by omega)
+      unfold glBody glTake; rw [exec_ite_true hc]
+      simp [exec, evalE, evalL, readPlace, writePlace, harr, hsx, l1, hcnt, convert, hw, bind, Except.bind, Except.map, A, Q]
+    have hstepQ : stepOf (some (.incdec (.var 3) true true .i32)) Q = .ok E := by
+      exact stepOf_some _ _ _ _ (incdec_i32_var3 m (.ptr bk 0) (.ptr an 0) (.ptr (gl[f]).1 0) (gl.length : Int) (by omega) (by omega))
+    have htestE : testOf (some glTest) E = .ok (false, E) := by
+      have : ¬ ((gl.length : Int) + 1 < (gl.length : Int)) := by omega
+      simp [glTest, testOf, evalE, evalL, readPlace, hcnt, binop, cmpInt, boolVal, truth, this, bind, Except.bind, E]
+    let P : Nat → St := fun i => if i ≤ f then A i else E
+    have hrounds : ∀ i, i < f + 1 → testOf (some glTest) (P i) = .ok (true, P i) ∧
+        ∃ Q', (exec fuel glBody (P i) = .normal Q' ∨ exec fuel glBody (P i) = .cont Q') ∧
+          stepOf (some (.incdec (.var 3) true true .i32)) Q' = .ok (P (i + 1)) := by
+      intro i hi
+      have hile : i ≤ f := by omega
+      have hin : i < gl.length := by omega
+      have hP : P i = A i := by simp [P, hile]
+      rw [hP]
+      have ht := htestA i
+      simp only [hin, decide_true] at ht
+      by_cases hif : i < f
+      · have hP1 : P (i + 1) = A (i + 1) := by simp [P]; omega
+        exact ⟨ht, A i, Or.inl (hmiss i hif), by rw [hP1]; exact hstepA i hin⟩
+      · have hif' : i = f := by omega
+        have hP1 : P (f + 1) = E := by
+          have : ¬ (f + 1 ≤ f) := by omega
+          simp [P, this]
+        rw [hif'] at ht ⊢
+        exact ⟨ht, Q, Or.inl hhit, by rw [hP1]; exact hstepQ⟩
+    have hPend : P (f + 1) = E := by
+      have : ¬ (f + 1 ≤ f) := by omega
+      simp [P, this]
+    have hl := loop_count _ _ _ (f + 1) P E hrounds (by rw [hPend]; exact htestE) fuel (by omega)
+    have hP0 : P 0 = A 0 := by simp [P]
+    rw [hP0] at hl
+    have hl' : exec fuel (.for (some glTest) (some (.incdec (.var 3) true true .i32)) glBody) (A 0) = .normal E := by rw [exec_for]; exact hl
+    rw [exec_seq_normal hl']
+    exact ⟨E.loc, by simp [exec, evalE, evalL, readPlace, bind, Except.bind, E]⟩
+  · -- not found
+    simp only [hlt, dite_false]
+    have heq : firstN gl nm = gl.length := by omega
+    have hrounds : ∀ i, i < gl.length → testOf (some glTest) (A i) = .ok (true, A i) ∧
+        ∃ Q', (exec fuel glBody (A i) = .normal Q' ∨ exec fuel glBody (A i) = .cont Q') ∧
+          stepOf (some (.incdec (.var 3) true true .i32)) Q' = .ok (A (i + 1)) := by
+      intro i hi
+      have ht := htestA i
+      simp only [hi, decide_true] at ht
+      exact ⟨ht, A i, Or.inl (hmiss i (by omega)), hstepA i hi⟩
+    have hte := htestA gl.length
+    simp only [Nat.lt_irrefl, decide_false] at hte
+    have hl := loop_count _ _ _ gl.length A (A gl.length) hrounds hte fuel (by omega)
+    have hl' : exec fuel (.for (some glTest) (some (.incdec (.var 3) true true .i32)) glBody) (A 0) = .normal (A gl.length) := by rw [exec_for]; exact hl
+    rw [exec_seq_normal hl']
+    exact ⟨(A gl.length).loc, by simp [exec, evalE, evalL, readPlace, bind, Except.bind, A]⟩
+
 end LeafKf
